@@ -67,6 +67,8 @@ def apply_op(inst, objs, usable):
     elif op == "translate_origin":
         r = T.TranslateOrigin()(t)
     elif op == "normalize":
+        if any(float(np.max(t.ndata[k])) == 0.0 for k in ("x", "y", "z", "r")):
+            return None          # Normalizer divides every column by its maximum: a column whose maximum is 0 is outside its domain (it would yield NaN)
         r = T.Normalizer()(t)
     elif op == "radius_reset":
         r = T.RadiusReseter(2.5)(t)
